@@ -122,10 +122,11 @@ def vLine (cd : Codec C) (v : C × C × C) : Line := .kw "v" :: coordLine cd v
 def lLine (e : Nat × Nat) : Line := [.kw "l", idx1 e.1, idx1 e.2]
 def fLine (f : List Nat) : Line := .kw "f" :: f.map idx1
 
-/-- obj.py:85-92 : which edges are written as `l a b` -/
+/-- obj.py:85-92 : which edges are written as `l a b` (repaired code: every edge when no face is written, i.e. when
+a reader could not complete the edges from faces; the pinned tree tested the cached `dimensionality == 1`) -/
 def objEdges (cfg : Cfg) (m : Raw C) : List (Nat × Nat) :=
   if cfg.exportEdges then
-    (if !cfg.completeEdges || dim m == 1 then m.edges else hardEdges m)
+    (if !cfg.completeEdges || m.faces.isEmpty then m.edges else hardEdges m)
   else []
 
 def exportObj (cd : Codec C) (cfg : Cfg) (m : Raw C) : File :=
@@ -259,11 +260,11 @@ def medRec (f : List Nat) : Line := f.map idx1 ++ [.int 1]
 def block (kwd : String) (recs : List Line) : File :=
   if recs = [] then [] else [.kw kwd] :: [idx0 recs.length] :: recs
 
-/-- medit.py:94-105 : `hard_edges` only when the attribute exists -/
+/-- medit.py:94-105 : `hard_edges` only when the attribute exists and faces or cells are written (repaired code) -/
 def medEdges (m : Raw C) : List (Nat × Nat) :=
   match m.hard with
   | none => m.edges
-  | some _ => hardEdges m
+  | some _ => if m.faces.isEmpty && m.cells.isEmpty then m.edges else hardEdges m
 
 def ofArity (n : Nat) (l : List (List Nat)) : List (List Nat) := l.filter (fun f => f.length == n)
 
